@@ -47,7 +47,9 @@ NOARG = {"charged_particles": "charge", "uncharged_particles": "charge", "partic
 IDS = ["particle_species", "remove_particle_species", "particle_status"]
 ALL_FILTERS = sorted(list(WINDOW_LIM) + list(WINDOW_NUM) + list(NOARG) + IDS +
                      ["spacetime_cut", "lower_event_energy_cut", "multiplicity_cut"])
-PDGS = [211, -211, 111, 2212, 2112, 22, 321, -321, 11, -13, 3122, 1, 2, 3, 4, 5, 6, 21, -2, 411, 521, 99999, 12345678]
+PDGS = [211, -211, 111, 2212, 2112, 22, 321, -321, 11, -13, 3122, 1, 2, 3, 4, 5, 6, 21, -2, 411, 521, 99999, 12345678,
+        # self-conjugate mesons: the negative code is not a valid PDG code (both signs, in any order of creation, in one process)
+        -111, 221, -221, 223, -223, 333, -333, 443, -443, -22, 130, -130, 310, -2212, -3122, -411]
 
 
 # ----------------------------------------------------------------------------------------- values
@@ -340,8 +342,18 @@ def expected(case, events):
             acc = NOARG[name]
             return particle_level(lambda p: not math.isnan(quantity(p, acc)) and quantity(p, acc) == 0)
         if name.startswith("keep_"):
+            # class / quark content straight from the PDG numbering scheme (the `particle` package), not through the Particle
+            # accessors: a particle is kept iff its PDG code is set, valid, and has the property
+            from particle import PDGID
             acc = NOARG[name]
-            return particle_level(lambda p: bool(quantity(p, acc) == True))
+
+            def in_class(p):
+                raw = float(p.data_[9])
+                if math.isnan(raw):
+                    return False
+                code = PDGID(int(raw))
+                return bool(code.is_valid) and bool(getattr(code, acc) == True)
+            return particle_level(in_class)
         if name == "remove_photons":
             return particle_level(lambda p: not math.isnan(quantity(p, "pdg")) and int(quantity(p, "pdg")) != 22)
         if name in ("particle_species", "remove_particle_species"):
@@ -376,7 +388,11 @@ def expected(case, events):
 
 def oracle(case):
     """C03 on the real code for this input: the returned lists are exactly the documented selection, by identity"""
-    events = build_events(case)
+    try:
+        events = build_events(case)
+    except Exception as e:
+        return (f"the input particles cannot even be built: Particle(...) raises {type(e).__name__}: {e} "
+                f"(particle lists with valid and invalid PDG codes are inside the property's quantifier)")[:400]
     exp = expected(case, events)
     if exp is None:
         return None
@@ -470,7 +486,10 @@ def _quantities(events_spec, acc):
     vals = []
     for ev in events_spec:
         for s in ev:
-            p = build_particle(s)
+            try:
+                p = build_particle(s)
+            except Exception:
+                continue                     # (a constructor that raises is reported by the oracle, not by the generator)
             try:
                 with warnings.catch_warnings():
                     warnings.simplefilter("ignore")
@@ -675,6 +694,16 @@ def correspondence(ctx, model_ok=True):
             cases.append(gen_case(ctx.rng, filt=f, admissible_only=True))
     while len(cases) < n:
         cases.append(gen_case(ctx.rng))
+    # cases whose particles cannot even be constructed on this tree are left to the property oracle (it reports them)
+    unbuildable = []
+    kept = []
+    for c in cases:
+        try:
+            build_events(c)
+            kept.append(c)
+        except Exception:
+            unbuildable.append(c)
+    cases = kept
     gots = [run_impl(c) for c in cases]
     dist = {"per_filter": {}, "n_events": {}, "impl_raised": 0, "arg_shapes": {}, "boundary_or_unset": 0,
             "array_built_particles": 0}
@@ -700,6 +729,8 @@ def correspondence(ctx, model_ok=True):
            "samples": cases[:2], "model_runner": "Eval vm_compute in generated cases files (sharded coqc)",
            "failures": [], "broken": []}
     out["all_cases"] = cases          # the driver runs the property oracle on these as well
+    for c in unbuildable[:3]:
+        out["failures"].append(Failure(c, "the particles of this case cannot be constructed"))
     for c, g in zip(cases, gots):
         if "altered" in g:
             out["failures"].append(Failure(c, f"particle {g['altered']} was altered by the filter"))
